@@ -11,10 +11,11 @@ Local Open Scope nat_scope.
    edges, both fixed-step solvers, EVERY hierarchy depth, any declared default of the input variable and every list of
    inputs in a form the property speaks about (1-D, (N,1), or (N,n) with n = #targets under vectorization; arrays at
    least as long as the number of steps; target lists without repetition), run() returns the trajectory driven by
-   spec_u, for any number of steps, any sampling step and any cutoff (the arrays are read with the step counter k, the
+   spec_u (arrays with at least two time samples: see C08_refuted_single_sample), for any number of steps, any sampling step and any cutoff (the arrays are read with the step counter k, the
    stored rows are C03's).  rows_fit / frame_ok are C03's conditions on (T, dt, dts). *)
 Theorem C08_full : forall s vectorize depth T dt dts cutoff udef W inputs x0,
   let d := match dts with Some d => d | None => dt end in
+  multi_sample inputs = true ->
   forallb (input_ok vectorize (rnd (T / dt))) inputs = true -> rows_fit T dt d = true -> frame_ok T d = true ->
   run_inputs s vectorize depth T dt dts cutoff udef W inputs x0 = Rows (spec_run_inputs s T dt dts cutoff udef W inputs x0).
 Proof. exact run_inputs_full. Qed.
@@ -139,6 +140,19 @@ Theorem C08_interp_at_sample : forall xa ya xb yb, lin xa ya xb yb xa = ya.
 Proof. exact lin_at_left. Qed.
 Print Assumptions C08_interp_at_sample.
 
+(* -------- the single-sample class -------- *)
+(* One step, one sample (inside the contract): IndexError.  The compiled (1,) constant is squeezed to 0-d; (1,n) arrays
+   fail likewise (IndexError / ValueError) except that with vectorization and n >= 10 target units the n columns are
+   silently read as n time samples (Inputs.squeeze_single). *)
+Theorem C08_refuted_single_sample :
+  run_inputs Euler true 0 (mkq 1 4) (mkq 1 4) None (mkq 0 1) (mkq 0 1) [[mkq 0 1]] [(A1 [mkq 3 1], [0])] [mkq 1 2] = ErrIndex /\
+  multi_sample [(A1 [mkq 3 1], [0])] = false /\
+  inputs_guard true (mkq 1 4) (mkq 1 4) [(A1 [mkq 3 1], [0])] = true /\
+  outcome_eqb (Rows (spec_run_inputs Euler (mkq 1 4) (mkq 1 4) None (mkq 0 1) (mkq 0 1) [[mkq 0 1]] [(A1 [mkq 3 1], [0])] [mkq 1 2]))
+              (Rows [[mkq 0 1; mkq 1 2]]) = true.
+Proof. exact refuted_single_sample. Qed.
+Print Assumptions C08_refuted_single_sample.
+
 (* -------- regression of fix D89 (was C08_refuted_depth2: AttributeError at hierarchy depth >= 2) -------- *)
 Theorem C08_depth2_after_D89 :
   outcome_eqb (run_inputs Euler true 2 (mkq 1 1) (mkq 1 4) None (mkq 0 1) (mkq 0 1) [[mkq 0 1]] [(A1 [mkq 1 1; mkq 2 1; mkq 4 1; mkq 8 1], [0])] [mkq 1 2])
@@ -151,7 +165,7 @@ Print Assumptions C08_depth2_after_D89.
 Example C08_nonvacuous :
   let inputs := [(A2 [[mkq 1 1; mkq 10 1]; [mkq 2 1; mkq 20 1]; [mkq 4 1; mkq 40 1]; [mkq 8 1; mkq 80 1]], [0; 1]);
                  (A1 [mkq 1 1; mkq (-1) 1; mkq 3 1; mkq 5 1], [1])] in
-  inputs_guard true (mkq 1 1) (mkq 1 4) inputs = true /\
+  multi_sample inputs = true /\ inputs_guard true (mkq 1 1) (mkq 1 4) inputs = true /\
   outcome_eqb (run_inputs Heun true 3 (mkq 1 1) (mkq 1 4) None (mkq 0 1) (mkq 0 1) [[mkq 0 1; mkq 0 1]; [mkq 2 1; mkq 0 1]] inputs [mkq 1 2; mkq 1 1])
               (Rows (spec_run_inputs Heun (mkq 1 1) (mkq 1 4) None (mkq 0 1) (mkq 0 1) [[mkq 0 1; mkq 0 1]; [mkq 2 1; mkq 0 1]] inputs [mkq 1 2; mkq 1 1])) = true /\
   row_eqb (nth 1 (spec_run_inputs Heun (mkq 1 1) (mkq 1 4) None (mkq 0 1) (mkq 0 1) [[mkq 0 1; mkq 0 1]; [mkq 2 1; mkq 0 1]] inputs [mkq 1 2; mkq 1 1]) [])
